@@ -246,6 +246,35 @@ def c18_falsy(idx: int) -> bool:
     return run(_falsy_point, idx)
 
 
+def _nocontext_body(https, tls_defaults):
+    """_new_pool(scheme, host, port) without a request context builds the pool from the manager's defaults — and leaves those
+    defaults exactly as they were, so that the next request under the same settings finds its pool again."""
+    kw = {}
+    if tls_defaults:
+        kw = {"ca_certs": "/ca.pem", "cert_file": "/c.pem", "key_file": "/k.pem", "key_password": "pw", "cert_reqs": "CERT_REQUIRED"}
+    pm = PoolManager(**kw)
+    before = dict(pm.connection_pool_kw)
+    scheme = "https" if https else "http"
+    first = pm.connection_from_host("h.example", scheme="https") if tls_defaults else None
+    # the protected hook subclasses override and legacy callers use with three arguments: no request context given
+    pm._new_pool(scheme, "other.example", 443 if https else 80)
+    if pm.connection_pool_kw != before:
+        lost = sorted(set(before) - set(pm.connection_pool_kw))
+        return _fail("_new_pool(%r, host, port) altered the manager's defaults: lost %r, now %r"
+                     % (scheme, lost, sorted(pm.connection_pool_kw)))
+    if first is not None and pm.connection_from_host("h.example", scheme="https") is not first:
+        return _fail("the same https request no longer finds its pool after an unrelated %s pool was created" % scheme)
+    mark("defaults intact")
+    return True
+
+
+def c18_nocontext(https: bool, tls_defaults: bool) -> bool:
+    """
+    post: _
+    """
+    return run(_nocontext_body, https, tls_defaults)
+
+
 def _map_body(kwi, differ, front, h2, p2, https):
     names = STR_KW + INT_KW + BOOL_KW + OBJ_KW
     kw_name = names[kwi]
@@ -346,6 +375,7 @@ def JOBS(tier):
         jobs.append({"func": "c18_key", "part": {"kw": kw}, "timeout": 80 if quick else t})
     jobs.append({"func": "c18_map", "part": {"nkw": len(STR_KW + INT_KW + BOOL_KW + OBJ_KW)}, "timeout": t})
     jobs.append({"func": "c18_reject", "part": {}, "timeout": t})
+    jobs.append({"func": "c18_nocontext", "part": {}, "timeout": t})
     jobs.append({"func": "c18_falsy", "part": {}, "timeout": t})
     return jobs
 
